@@ -303,6 +303,9 @@ func (in *Interp) convert(dst, src types.Type, x Value) Value {
 					}
 				}
 				if sb.Info()&types.IsFloat != 0 {
+					if r := in.intRoundTrip(t, w, db.Info()&types.IsUnsigned == 0); r != nil {
+						return r
+					}
 					return ts.FToInt(t, db.Info()&types.IsUnsigned == 0, w)
 				}
 			case *types.Pointer:
@@ -404,3 +407,43 @@ func (in *Interp) convert(dst, src types.Type, x Value) Value {
 }
 
 var _ = math.Abs
+
+// intRoundTrip recognises int(float64(x)) and int(math.Abs(float64(x))) on a symbolic 64-bit signed x
+// and answers without floating-point reasoning: exact for |x| <= 2^53; beyond, the rounding of the
+// int->float conversion is over-approximated by a fresh value within 1024 of the exact one (a sound
+// over-approximation of the reachable results; the float64 spacing below 2^63 is at most 1024).
+func (in *Interp) intRoundTrip(f *Term, w int, signed bool) *Term {
+	if w != 64 || !signed || f.IsConst() {
+		return nil
+	}
+	abs := false
+	g := f
+	if g.Op == OFAbs {
+		abs = true
+		g = g.A[0]
+	}
+	if g.Op != OSToF || g.A[0].Sort != BV(64) || g.Sort != F64Sort {
+		return nil
+	}
+	ts := in.ts
+	x := g.A[0]
+	lim := in.i64(1 << 53)
+	small := ts.And(ts.Cmp(OSLe, ts.Neg(lim), x), ts.Cmp(OSLe, x, lim))
+	exact := x
+	if abs {
+		exact = ts.Ite(ts.Cmp(OSLt, x, in.i64(0)), ts.Neg(x), x)
+	}
+	r := in.fresh("fround", "aux", BV(64))
+	// |x| as an unsigned magnitude avoids the MinInt64 corner
+	mag := ts.Ite(ts.Cmp(OSLt, x, in.i64(0)), ts.Neg(x), x) // MinInt64 maps to itself = 2^63 unsigned
+	var near *Term
+	if abs {
+		// result in [mag-1024, mag+1024] unsigned, and for mag = 2^63 the conversion yields MinInt64 (amd64)
+		near = ts.And(ts.Cmp(OULe, ts.Bin(OSub, mag, in.i64(1024)), r), ts.Cmp(OULe, r, ts.Bin(OAdd, mag, in.i64(1024))))
+	} else {
+		d := ts.Bin(OSub, r, x)
+		near = ts.And(ts.Cmp(OSLe, in.i64(-1024), d), ts.Cmp(OSLe, d, in.i64(1024)))
+	}
+	in.assume(ts.Or(small, near))
+	return ts.Ite(small, exact, r)
+}
